@@ -59,11 +59,11 @@ func voucherAtoms() ([]AtomDef, []Derivation) {
 		}},
 		executed("hdr-in-prevhash", "the header was encoded into the initial previous-hash", named("fdo/cbor.Encoder.Encode"),
 			func(m *Matcher, _ ssa.CallInstruction, args []ssa.Value) bool {
-				return m.Fn.Name() == "VerifyEntries" && m.Prov(args[1]).Has("field:fdo.Voucher.Header")
+				return m.Prov(args[1]).Has("field:fdo.Voucher.Header") && m.Prov(args[0]).HasPrefixX("call:crypto/sha")
 			}),
 		executed("hmac-in-prevhash", "the header HMAC was encoded into the initial previous-hash", named("fdo/cbor.Encoder.Encode"),
 			func(m *Matcher, _ ssa.CallInstruction, args []ssa.Value) bool {
-				return m.Fn.Name() == "VerifyEntries" && m.Prov(args[1]).Has("field:fdo.Voucher.Hmac")
+				return m.Prov(args[1]).Has("field:fdo.Voucher.Hmac") && m.Prov(args[0]).HasPrefixX("call:crypto/sha")
 			}),
 		// --- header HMAC ---
 		equal("hmac-eq", "hmac.Equal(given HMAC value, recomputed MAC) is true",
@@ -186,11 +186,11 @@ func voucherVerifierObligations(f *Flow, r *Result, prefix string, want []string
 						call := e.Site.(ssa.CallInstruction)
 						m := f.matcherFor(ve)
 						args := allArgs(call)
-						ok := len(args) >= 4 && m.Prov(args[0]).Has("call:fdo/protocol.PublicKey.Public") && m.Prov(args[0]).Has("field:fdo.VoucherHeader.ManufacturerKey")
+						ok := len(args) >= 4 && m.Prov(args[0]).HasX("call:fdo/protocol.PublicKey.Public") && m.Prov(args[0]).HasX("field:fdo.VoucherHeader.ManufacturerKey")
 						var hashOK bool
 						for _, a := range args {
 							pv := m.Prov(a)
-							if (pv.Has("call:crypto/sha256.Sum256") || pv.Has("call:crypto/sha512.Sum384")) && pv.Has("field:fdo.VoucherHeader.GUID") && pv.Has("field:fdo.VoucherHeader.DeviceInfo") {
+							if (pv.HasX("call:crypto/sha256.Sum256") || pv.HasX("call:crypto/sha512.Sum384")) && pv.HasX("field:fdo.VoucherHeader.GUID") && pv.HasX("field:fdo.VoucherHeader.DeviceInfo") {
 								hashOK = true
 							}
 						}
@@ -211,7 +211,7 @@ func voucherVerifierObligations(f *Flow, r *Result, prefix string, want []string
 				call := e.Site.(ssa.CallInstruction)
 				m := f.matcherFor(helper)
 				args := allArgs(call)
-				keyOK := len(args) > 0 && m.Prov(args[0]).Has("call:fdo/protocol.PublicKey.Public") && m.Prov(args[0]).Has("field:fdo.VoucherEntryPayload.PublicKey")
+				keyOK := len(args) > 0 && m.Prov(args[0]).HasX("call:fdo/protocol.PublicKey.Public") && m.Prov(args[0]).HasX("field:fdo.VoucherEntryPayload.PublicKey")
 				tailOK := false
 				for _, a := range args {
 					if sl, ok := a.(*ssa.Slice); ok && sl.Low != nil && isConstInt(sl.Low, 1) && sl.High == nil && paramOf("VoucherEntryPayload")(m, sl.X) {
